@@ -402,6 +402,7 @@ def main(argv):
             "every way of letting a borrow escape (borrow_arc, get, borrow/as_first/as_second, Deref, with_arc-style callbacks by assignment and by return, "
             "aliasing of get_mut/make_mut/get_unique/make_unique/deref_mut, header_mut/slice_mut, drop-check per handle kind). Each negative witness must "
             "produce exactly the marked (line, error code) set and has a compiling twin differing only in the marked lines."
+            " R-SELFREF (added later): a returned reference that is the `&self` argument itself re-typed carries that argument's lifetime, not the payload lifetime the handle type names."
         ),
         rule_text="obligations = expected rejections (one per marked line) + twins + positive witnesses + impl-table facts; discharged = those rustc confirms",
         trusted_base=["rustc nightly type checker, borrow checker and drop checker", "handles contain a NonNull (never auto-Send/Sync), so the manual impls are the whole condition"],
